@@ -153,7 +153,7 @@ const OPAQUE: [&str; 15] = [
     "C:\\legacy\\",
 ];
 
-fn opaque_one(ctx: &mut Ctx, sp: &Sp, kind_tl: bool, ready: bool, skip: bool, val: &str, q: char, pos: usize, sep: &str, gen_name: &str) {
+fn opaque_one(ctx: &mut Ctx, sp: &Sp, kind_tl: bool, ready: bool, skip: u8, unwrap: u8, val: &str, q: char, pos: usize, sep: &str, gen_name: &str) {
     let other = if q == '"' { '\'' } else { '"' };
     let val = val.replace(q, &other.to_string());
     let mut val = val.replace("{DS}", &sp.ds);
@@ -166,9 +166,19 @@ fn opaque_one(ctx: &mut Ctx, sp: &Sp, kind_tl: bool, ready: bool, skip: bool, va
         format!("name={q}{}{q}", if ready { MK_NAMES[0] } else { MK_NEVER[0] })
     };
     let mut attrs: Vec<String> = vec![cond];
-    if skip {
-        attrs.push("skip".to_string());
+    // the two flag attributes: absent (0), bare word (1), or name=value with the opaque value (2):
+    // the name decides, whatever the value says
+    match skip {
+        1 => attrs.push("skip".to_string()),
+        2 => attrs.push(format!("skip={q}{val}{q}")),
+        _ => {}
     }
+    match unwrap {
+        1 => attrs.push("unwrap-block".to_string()),
+        2 => attrs.push(format!("unwrap-block={q}{val}{q}")),
+        _ => {}
+    }
+    let skip = skip > 0;
     let c = format!("c={q}{val}{q}");
     let pos = pos % (attrs.len() + 1);
     attrs.insert(pos, c);
@@ -178,7 +188,8 @@ fn opaque_one(ctx: &mut Ctx, sp: &Sp, kind_tl: bool, ready: bool, skip: bool, va
         ctx.skip("opaque: body outside grammar (harness self-check)");
         return;
     }
-    let text = format!("before();\n{}{body}{}\ngone();\n{}/{name}{}\nafter();\n", sp.ds, sp.de, sp.ds, sp.de);
+    let inner = if unwrap > 0 { "if (x) {\n  keep();\n}" } else { "gone();" };
+    let text = format!("before();\n{}{body}{}\n{inner}\n{}/{name}{}\nafter();\n", sp.ds, sp.de, sp.ds, sp.de);
     if crate::judge::recognition_in_dispute(&text, sp) {
         ctx.skip("tag recognition in dispute on this rendering (KF-C08)");
         return;
@@ -191,14 +202,20 @@ fn opaque_one(ctx: &mut Ctx, sp: &Sp, kind_tl: bool, ready: bool, skip: bool, va
     ctx.eval();
     let cfg = step_cfg(STEP);
     let expect_removed = ready && !skip;
-    let rp = || json!({"kind": "opaque", "text": text, "sp": sp.json(), "expect_removed": expect_removed});
+    let rp = || json!({"kind": "opaque", "text": text, "sp": sp.json(), "expect_removed": expect_removed, "unwrap": unwrap > 0});
     match api::call_clean(&text, sp, &cfg) {
         Err(p) => {
             ctx.panic_site(&p);
             ctx.violation(gen_name, format!("clean panicked @ {}", api::short_loc(&p.loc)), rp());
         }
         Ok((out, _)) => {
-            let want = if expect_removed { "before();\nafter();\n".to_string() } else { text.clone() };
+            let want = if !expect_removed {
+                text.clone()
+            } else if unwrap > 0 {
+                "before();\nkeep();\nafter();\n".to_string()
+            } else {
+                "before();\nafter();\n".to_string()
+            };
             let ok = if expect_removed { nonws(&out) == nonws(&want) } else { out == want };
             if ok {
                 ctx.nontrivial(hash_str(&text));
@@ -210,7 +227,7 @@ fn opaque_one(ctx: &mut Ctx, sp: &Sp, kind_tl: bool, ready: bool, skip: bool, va
                         "content of a quoted value changed the decision: {:?} => {:?} (expected {})",
                         trunc(&text, 240),
                         trunc(&out, 160),
-                        if expect_removed { "element removed" } else { "unchanged" }
+                        if !expect_removed { "unchanged" } else if unwrap > 0 { "block unwrapped" } else { "element removed" }
                     ),
                     rp(),
                 );
@@ -323,7 +340,7 @@ pub fn run(ctx: &mut Ctx) {
             for q in ['"', '\''] {
                 for kind_tl in [true, false] {
                     for ready in [true, false] {
-                        for skip in [false, true] {
+                        for (skip, unwrap) in [(0u8, 0u8), (1, 0), (2, 0), (0, 1), (0, 2), (1, 2), (2, 1)] {
                             for pos in 0..3 {
                                 for sep in [" ", "\n", "\n * "] {
                                     rank += 1;
@@ -333,7 +350,7 @@ pub fn run(ctx: &mut Ctx) {
                                     if ctx.out_of_time() {
                                         break;
                                     }
-                                    opaque_one(ctx, sp, kind_tl, ready, skip, val, q, pos, sep, "opaque");
+                                    opaque_one(ctx, sp, kind_tl, ready, skip, unwrap, val, q, pos, sep, "opaque");
                                 }
                             }
                         }
@@ -374,7 +391,9 @@ pub fn replay(ctx: &mut Ctx, v: &Value) -> Result<(), String> {
             match api::call_clean(text, &sp, &cfg) {
                 Err(p) => ctx.violation("replay", format!("clean panicked @ {}", api::short_loc(&p.loc)), v.clone()),
                 Ok((out, _)) => {
-                    let ok = if expect_removed { nonws(&out) == nonws("before();\nafter();\n") } else { out == text };
+                    let unwrap = v.get("unwrap").and_then(|x| x.as_bool()).unwrap_or(false);
+                    let gone = if unwrap { "before();keep();after();" } else { "before();after();" };
+                    let ok = if expect_removed { nonws(&out) == gone } else { out == text };
                     if ok {
                         ctx.nontrivial(hash_str(text));
                     } else {
